@@ -1,1 +1,29 @@
-From TB Require Import Base.
+(** C15 - the reported availability figures are truthful and account for every piece.  Statements only. *)
+From TB Require Import Base Decimal BencodeModel TorrentModel TorrentProofs PathModel FsModel SolverModel FinderModel RunModel
+                       SolverProofs RunProofs FsProofs FaultProofs PreludeProofs TableProofs Generated GeneratedObligations.
+Local Open Scope N_scope.
+
+(** After any list of piece outcomes (none of which is a panic - C16), succeeded + failed + faulted
+    has grown by exactly the number of pieces evaluated and the total is unchanged. *)
+Theorem C15_counters_sum os c : Forall (fun o => o <> PanicO) os ->
+  let c' := fold_left count os c in
+  (c_success c' + c_failed c' + c_fault c' = c_success c + c_failed c + c_fault c + length os)%nat /\ c_total c' = c_total c.
+Proof. exact (counters_sum os c). Qed.
+
+(** One progress line per piece. *)
+Theorem C15_one_line_per_piece os c : length (progress c os) = length os.
+Proof. exact (one_line_per_piece os c). Qed.
+
+(** A piece is counted as succeeded only when its program returned [Success], which every accepted
+    trace reaches only through good operations (the found branch: hash matched, bytes written). *)
+Theorem C15_success_only_via_good_trace content pc pg : good content pc pg -> forall evs n,
+  match walk pg evs n with
+  | WDone o => Forall (ev_ok content pc) evs /\ o <> PanicO
+  | WCut => Forall (ev_ok content pc) evs
+  | _ => True
+  end.
+Proof. exact (walk_good content pc pg). Qed.
+
+Print Assumptions C15_counters_sum.
+Print Assumptions C15_one_line_per_piece.
+Print Assumptions C15_success_only_via_good_trace.
